@@ -86,6 +86,19 @@ int main(int argc, char** argv) {
         }
       });
     }
+    if ((seed % 4) == 1 && strategy != 1) {
+      // the calendar clock is stepped forwards and backwards while the program runs (NTP step, date -s): timed waits
+      // must measure elapsed time on a monotonic clock, so this must not change any outcome
+      bodies.push_back([&] {
+        const int64_t S = 1000000000ll;
+        for (int k = 0; k < 3; ++k) sched_yield();
+        verif::step_wall_clock(+600 * S);
+        for (int k = 0; k < 4; ++k) sched_yield();
+        verif::step_wall_clock(-1300 * S);
+        for (int k = 0; k < 4; ++k) sched_yield();
+        verif::step_wall_clock(+700 * S);
+      });
+    }
     verif::Options opt; opt.seed = seed; opt.strategy = strategy; opt.max_steps = 200000;
     opt.spurious_futex = (seed % 3) == 0 && strategy != 1;   // futex_wait may return EINTR / spuriously: waiters must re-check
     verif::Result r = verif::run(bodies, opt);
